@@ -202,7 +202,7 @@ def workload(ctx):
     from xfab import sg as sgmod
     rng = ctx.rng(1)
     reqs = [("by_number", {"no": no, "cell_choice": cc}) for no in range(1, 231) for cc in ("standard", "rhombohedral")]
-    nvar = ctx.n(4, 12)
+    nvar = ctx.n(4, 40)
     for key in sorted(sgmod.sgdic):
         for v in _variants(key, rng, nvar):
             reqs.append(("by_name", {"key": key, "spelling": v, "cell_choice": "standard"}))
